@@ -9,9 +9,13 @@ Verdict(c) ==
     ELSE IF Len(c.py) # Len(c.jit) THEN <<"REJECT", "SameShape", c.prog>>
     ELSE IF Agree(c.cls, c.py, c.jit, c.raw) THEN <<"ACCEPT", "", "">>
     ELSE LET i == FirstDisagreement(c.cls, c.py, c.jit, c.raw) IN <<"REJECT", "Agree", c.prog \o " cell " \o ToString(i) \o ": py=" \o c.py[i] \o " jit=" \o c.jit[i]>>
+\* generic clauses of every recorded call: the caller's arrays come back untouched; an exception is an event
+Guarded(c) == IF "inmod" \in DOMAIN c /\ c.inmod THEN <<"REJECT", "InputsUnmodified", "">>
+              ELSE IF "exc" \in DOMAIN c /\ c.exc # "" THEN <<"REJECT", "NoException", c.exc>>
+              ELSE Verdict(c)
 Init == k \in 1..Len(Cases) /\ v = "todo"
 Next == /\ v = "todo"
-        /\ LET r == Verdict(Cases[k]) IN PrintT(<<"V", k, r[1], r[2], r[3]>>) /\ v' = r[1]
+        /\ LET r == Guarded(Cases[k]) IN PrintT(<<"V", k, r[1], r[2], r[3]>>) /\ v' = r[1]
         /\ UNCHANGED k
 TraceSpec == Init /\ [][Next]_<<k, v>>
 =============================================================================
